@@ -9,7 +9,7 @@
              ++ enc(subset_orig) ++ [original_meta; shank_key; nbytes; nc; fs; is_lf; nsync; ns_open; fudged] ++ (enc(per column: filtered, AP-file column) if wc = 1 else [0]) *)
 From Coq Require Import ZArith List Bool.
 From IBL.lib Require Import PyInt RunLib.
-From IBL.C12 Require Import Model.
+From IBL.C12 Require Import Model Names.
 Import ListNotations.
 Open Scope Z_scope.
 
@@ -30,7 +30,9 @@ Definition enc_file_f (wc : Z) (m0 : meta) (meta_ns : Z) (f : list Z * meta * Z 
 (* input : nsf :: nsamples_arg :: off :: nwindow_arg :: imDatPrb_type :: meta_ns :: nominal :: wc :: assert_shanks
            :: acq0 :: acq1 :: acq2 :: sns0 :: sns1 :: sns2 :: nsaved :: fsize :: rate :: subset_hi
            :: k :: nshank_1 .. nshank_k          (the nshank argument; k = 0: None)
+           :: is_cbin :: L :: c_1 .. c_L         (the AP file given is a .cbin; its name, character codes)
            :: shank of every site (rest of the list)
+   every file block of the output ends with enc(name of the lf file, ".cbin" read as ".bin")
    (arguments 0 stand for None: nsamples -> sr.ns, nwindow -> 2 * fs_ap)
    output: 2 (probe type not NP2: status -1, nothing written) | 0 (raises) | 1 :: ... as above, for the shanks the
    model says are processed *)
@@ -39,7 +41,11 @@ Definition run (inp : list Z) : list Z :=
   | nsf :: nsarg :: off :: warg :: prb :: meta_ns :: nominal :: wc :: ash
     :: a0 :: a1 :: a2 :: s0 :: s1 :: s2 :: nsv :: fsz :: rt :: shi :: k :: rest =>
       let nshank := firstn (Z.to_nat k) rest in
-      let shanks := skipn (Z.to_nat k) rest in
+      let rest1 := skipn (Z.to_nat k) rest in
+      let iscb := match rest1 with c :: _ => c =? 1 | [] => false end in
+      let nl := match rest1 with _ :: l :: _ => l | _ => 0 end in
+      let name := firstn (Z.to_nat nl) (skipn 2 rest1) in
+      let shanks := skipn (Z.to_nat nl) (skipn 2 rest1) in
       let version := np_version prb in
       let ns := nsamples_of nsarg nsf in
       let W := window_of warg in
@@ -56,7 +62,8 @@ Definition run (inp : list Z) : list Z :=
         | Some n, Some ps =>
             1 :: (if nominal =? 1 then meta_ns_nominal nsf else meta_ns) :: n :: enc_zlist ps
               ++ enc_list (fun sh => enc_file_f wc m meta_ns
-                             (lf_file_chns version m (file_chns version (ash =? 1) shanks nsv s2 sh) n meta_ns sh)) shs
+                             (lf_file_chns version m (file_chns version (ash =? 1) shanks nsv s2 sh) n meta_ns sh)
+                             ++ enc_zlist (lf_out_name version iscb name)) shs
         | _, _ => [0]
         end
       end
